@@ -7,6 +7,7 @@ use std::collections::HashMap;
 use std::future::Future;
 use std::ops::DerefMut;
 use std::pin::Pin;
+use std::sync::atomic::{AtomicBool, Ordering};
 use std::sync::Arc;
 use tokio::io::{AsyncRead, AsyncWrite};
 use tokio::net::TcpStream;
@@ -39,6 +40,9 @@ pub struct DiameterClient {
     address: String,
     writer: Option<Arc<Mutex<dyn AsyncWrite + Send + Unpin>>>,
     msg_caches: Arc<Mutex<HashMap<u32, Sender<DiameterMessage>>>>,
+    // Set (under the `msg_caches` lock) once the reader has stopped: nobody is left to
+    // complete a request, so outstanding and later requests must fail instead of waiting.
+    closed: Arc<AtomicBool>,
     seq_num: u32,
 }
 
@@ -59,6 +63,7 @@ impl DiameterClient {
             address: addr.into(),
             writer: None,
             msg_caches: Arc::new(Mutex::new(HashMap::new())),
+            closed: Arc::new(AtomicBool::new(false)),
             seq_num: 0,
         }
     }
@@ -69,6 +74,7 @@ impl DiameterClient {
     ///    A `Result` containing a `ClientHandler` or an error if the connection cannot be established.
     pub async fn connect(&mut self) -> Result<ClientHandler> {
         let stream = TcpStream::connect(self.address.clone()).await?;
+        self.closed = Arc::new(AtomicBool::new(false));
 
         if self.config.use_tls {
             let tls_connector = tokio_native_tls::TlsConnector::from(
@@ -88,6 +94,7 @@ impl DiameterClient {
             Ok(ClientHandler {
                 reader: Box::new(reader),
                 msg_caches,
+                closed: Arc::clone(&self.closed),
             })
         } else {
             let (reader, writer) = tokio::io::split(stream);
@@ -101,6 +108,7 @@ impl DiameterClient {
             Ok(ClientHandler {
                 reader: Box::new(reader),
                 msg_caches,
+                closed: Arc::clone(&self.closed),
             })
         }
     }
@@ -139,15 +147,22 @@ impl DiameterClient {
                     if let Err(e) = Self::process_decoded_msg(handler.msg_caches.clone(), res).await
                     {
                         log::error!("Failed to process response; error: {:?}", e);
-                        return;
+                        break;
                     }
                 }
                 Err(e) => {
                     log::error!("Failed to read message from socket; error: {:?}", e);
-                    return;
+                    break;
                 }
             }
         }
+
+        // The reader stops here, so no outstanding request can be answered any more:
+        // release every waiter (dropping a sender fails its ResponseFuture) and refuse
+        // later requests, all under the same lock send_message registers under.
+        let mut msg_caches = handler.msg_caches.lock().await;
+        handler.closed.store(true, Ordering::SeqCst);
+        msg_caches.clear();
     }
 
     async fn process_decoded_msg(
@@ -191,6 +206,9 @@ impl DiameterClient {
             let hop_by_hop = req.get_hop_by_hop_id();
             {
                 let mut msg_caches = self.msg_caches.lock().await;
+                if self.closed.load(Ordering::SeqCst) {
+                    return Err(Error::ClientError("Connection closed".into()));
+                }
                 msg_caches.insert(hop_by_hop, tx);
             }
             let mut writer = writer.lock().await;
@@ -214,6 +232,7 @@ pub struct ClientHandler {
     // reader: ReadHalf<TcpStream>,
     reader: Box<dyn AsyncRead + Send + Unpin>,
     msg_caches: Arc<Mutex<HashMap<u32, Sender<DiameterMessage>>>>,
+    closed: Arc<AtomicBool>,
 }
 
 /// A future for receiving a Diameter message response.
